@@ -210,6 +210,35 @@ def run(chk):
                 emit(base_copy, build.expand_mul(Expr(res.sympy,
                                                       **res.assumptions)),
                      f"itmd:reduce:{label}", what, tsyms)
+    # (a') powers of intermediates whose definition carries summation indices:
+    #      every factor of the power needs its own summation indices
+    from sympy import Pow as _Pow
+    pw = ["t1_2", "p0_2_oo", "p0_2_vv", "t2sq", "t2eri_3", "t2eri_4"]
+    if quick:
+        pw = pw[:2] + r.sample(pw[2:], 2)
+    for name in pw:
+        it = avail[name]
+        for idx, expo in ((it.default_idx, 2), (it.default_idx, 3)):
+            if expo == 3 and (quick or name.startswith("t2")):
+                continue
+            tens = it.tensor(idx, return_sympy=True)
+            tsyms = list(get_symbols(idx))
+            base = Expr(_Pow(tens, expo), real=True, target_idx=tsyms)
+            base_copy = Expr(base.sympy, **base.assumptions)
+            for full in (False, True):
+                x = Expr(base.sympy, **base.assumptions)
+                res, exc = guarded(x.expand_intermediates, full)
+                chk.count("expand_calls")
+                what = (f"Expr({base_copy.sympy}).expand_intermediates("
+                        f"fully_expand={full})")
+                if exc:
+                    chk.report_direct("itmd:expand:exception", f"{what} "
+                                      f"raised {exc['type']}: {exc['msg']}",
+                                      exc)
+                    continue
+                res = build.expand_mul(Expr(res.sympy, **res.assumptions))
+                emit(base_copy, res, f"itmd:expand-power:{name}^{expo}", what,
+                     tsyms)
     # (d) brackets with a higher exponent than the integrals: amplitude
     #     overlaps and orbital-energy derivatives (V / D^2 ...)
     from adcgen.sympy_objects import SymmetricTensor
